@@ -14,6 +14,6 @@ Definition run_find (f : Z) (s t : ustr) : ustr * ustr :=
   let r := match f with
            | 0 => [b2z (contains s t)] | 1 => [b2z (starts_with s t)] | 2 => [b2z (ends_with s t)]
            | 3 => substring_before s t | _ => substring_after s t end in (r, r).
-Definition run_normalize (s : ustr) := (normalize_space py_isspace s, normalize_space xml_space s).
+Definition run_normalize (s : ustr) := (normalize_space code_ws s, normalize_space xml_space s).
 Definition run_compare (a b : ustr) := ([compare_cp a b; b2z (codepoint_equal a b)], [compare_cp a b; b2z (codepoint_equal a b)]).
 Definition run_xmlchar (c : Z) := ([b2z (is_xml_codepoint c)], [b2z (is_xml_codepoint c)]).
